@@ -5,6 +5,8 @@ is not arithmetic (calls, member accesses, subscripts) becomes a symbol named by
 two occurrences of the same pure accessor call are the same symbol.  This is algebra on two pieces of
 code, not path exploration.
 """
+import os
+
 import sympy
 
 from .tree import key, written_roots, ASSIGN_OPS
@@ -35,6 +37,24 @@ def _read_only_argument(ref):
                 return True  # by value
             return t.startswith("const ") or " const &" in t
     return False
+
+
+INT_TYPES = {"int", "unsigned int", "long", "unsigned long", "long long", "unsigned long long", "short", "unsigned short", "char", "unsigned char", "signed char", "std::size_t", "size_t"}
+
+
+def int_aware_div(n, a, b):
+    """C++ `/` on two integer operands truncates: literal operands are folded (1/10 == 0); a symbolic integer quotient is kept as
+    an opaque intdiv(a, b) so that it never cancels like a real quotient.  (Rule modules that deliberately reason over the reals
+    about an integer quotient - e.g. the iteration number n = subiteration/num_subsets - check the operand types themselves.)"""
+    t = (n.type or "").replace("const ", "").strip()
+    if t in INT_TYPES and os.environ.get("VERIF_REAL_INTDIV") != "1":
+        if a.is_Integer and b.is_Integer and b != 0:
+            q = abs(int(a)) // abs(int(b))
+            return sympy.Integer(q if (int(a) >= 0) == (int(b) >= 0) else -q)
+        if getattr(n, "_intdiv_real", False):
+            return a / b
+        return sympy.Function("intdiv")(a, b)
+    return a / b
 
 
 class LocalDefs:
@@ -194,7 +214,7 @@ class Algebra:
                     return a - b
                 if op == "*":
                     return a * b
-                return a / b
+                return int_aware_div(n, a, b)
             if op == ",":
                 return self.expr(n.c[1])
         if k == "UnaryOperator":
